@@ -5,6 +5,7 @@ import sys
 import time
 
 VERIF = os.path.dirname(os.path.dirname(os.path.abspath(__file__)))
+OUT = os.environ.get("VERIF_OUT", VERIF)  # seeded-change runs redirect evidence / replays away from /verif
 
 PY_SEMANTICS = [
     "python-semantics:int-is-mathematical (true in CPython)",
@@ -83,11 +84,11 @@ def finish(args, P, results, bounded, known, ax_n, t0, seed):
             else:
                 b_viol.append((b, v))
     # ---- replay files
-    os.makedirs(os.path.join(VERIF, "replays"), exist_ok=True)
+    os.makedirs(os.path.join(OUT, "replays"), exist_ok=True)
     out_lines = []
     from . import replay
     for i, (o, r) in enumerate(violations[:20]):
-        path = os.path.join(VERIF, "replays", f"{prop}-{i}.json")
+        path = os.path.join(OUT, "replays", f"{prop}-{i}.json")
         rp = replay.try_replay(prop, P, r, o)
         doc = {"property": prop, "kind": "failed-obligation", "obligation": o["name"], "function": r["key"],
                "clause_kind": o.get("kind"), "exception": o.get("exception"), "where": o.get("where"),
@@ -102,7 +103,7 @@ def finish(args, P, results, bounded, known, ax_n, t0, seed):
         tail = "" if (rp and rp.get("failing_input_found")) else " no-failing-input-found"
         out_lines.append(f"VIOLATION property={prop} replay={path}{tail}")
     for i, (b, v) in enumerate(b_viol[:20]):
-        path = os.path.join(VERIF, "replays", f"{prop}-b{i}.json")
+        path = os.path.join(OUT, "replays", f"{prop}-b{i}.json")
         with open(path, "w") as f:
             json.dump({"property": prop, "kind": "bounded-contract-fired", "bounded": b.get("name"), "case": v},
                       f, indent=1, default=str)
@@ -178,8 +179,8 @@ def finish(args, P, results, bounded, known, ax_n, t0, seed):
     doc = {"property_id": prop, "tier": args.tier, "seed": seed, "level": P.level, "coverage": cov,
            "assumptions": assum, "wall_s": round(time.time() - t0, 2), "violations": n_viol,
            "exit_code": code}
-    os.makedirs(os.path.join(VERIF, "evidence"), exist_ok=True)
-    with open(os.path.join(VERIF, "evidence", f"{prop}.json"), "w") as f:
+    os.makedirs(os.path.join(OUT, "evidence"), exist_ok=True)
+    with open(os.path.join(OUT, "evidence", f"{prop}.json"), "w") as f:
         json.dump(doc, f, indent=1, default=str)
     for ln in out_lines:
         print(ln)
